@@ -45,9 +45,11 @@ Edge(u, v) == G.edge[u][v]
 IsCaseEdge(u, v) == Edge(u, v).cs # "-"
 (* the reduced view of _get_reduced_dag: case_branch edges dropped; a one-of child is visible only in the subgraph
    built to run it, i.e. as the destination of a dag (it belongs to no other scope) - unless it is also an ordinary
-   dependency of some node (a successor that is not a one-of head, over an edge that is not a case edge): then it is an
-   ordinary node everywhere *)
-VisNode(n, oneof, dest) == ~A(n).is_child \/ n = dest \/ \E v \in Succs(n) : ~A(v).is_head /\ ~IsCaseEdge(n, v)
+   dependency of some node that this dag can see (a successor that is not a one-of head, over an edge that is not a case
+   edge, itself visible): then it is an ordinary node of the dag *)
+RECURSIVE VisNode(_, _, _)
+VisNode(n, oneof, dest) == ~A(n).is_child \/ n = dest
+                           \/ \E v \in Succs(n) : ~A(v).is_head /\ ~IsCaseEdge(n, v) /\ VisNode(v, oneof, dest)
 VEdge(u, v, filtered, oneof, dest) ==
     HasEdge(u, v) /\ (~filtered \/ (~IsCaseEdge(u, v) /\ VisNode(u, oneof, dest) /\ VisNode(v, oneof, dest)))
 
@@ -290,8 +292,10 @@ NodeStore(S, t) ==
     LET f == Top(S, t)
         n == f.n
         r == f.result
+        (* only the request that executed the node starts the sub-graph; a duplicate request that reads the marker does not *)
         S1 == IF IsRec(r)
-              THEN SetTop(Spawn(S, "rec-" \o n, [fn |-> "rec", pc |-> "q0", n |-> n, dag |-> f.dag, iter |-> 0, data |-> r[3], sub |-> 0]),
+              THEN SetTop(IF f.dup THEN S
+                          ELSE Spawn(S, "rec-" \o n, [fn |-> "rec", pc |-> "q0", n |-> n, dag |-> f.dag, iter |-> 0, data |-> r[3], sub |-> 0]),
                           t, [f EXCEPT !.unlock = FALSE])
               ELSE S
     IN  IF ~f.dup /\ r[1] \notin {"rec", "err"}
@@ -517,7 +521,12 @@ Exec(S, t) ==
                    (* back from _run_dag(recurrent_subgraph) *)
                    LET r == S.tasks[t].ret
                    IN  IF SubErr(S, S.dags[f.sub])
-                       THEN Continue(Ret(NotifyDesc(S, f.n), t, <<"none">>), t)    \* marker is kept; wake whoever waits for n
+                       THEN (* the failure of the sub-graph is kept as the destination's result (another scope may need
+                               the same sub-graph), the sub-graph is no longer active; wake whoever waits for n *)
+                            LET m == CHOOSE x \in SubNodes(S, S.dags[f.sub].nodes, 3) : HasRes(S, x) /\ IsErr(S.res[x])
+                                S1 == [S EXCEPT !.res[f.n] = S.res[m], !.hid = @ \ {f.n},
+                                                !.active = @ \ {<<A(f.n).start, f.n>>}, !.addl[A(f.n).start] = <<"-">>]
+                            IN  Continue(Ret(NotifyDesc(S1, f.n), t, <<"none">>), t)
                        ELSE IF ~(r # <<"none">> /\ IsRec(r))
                             THEN Exec(SetPc(S, t, "q4"), t)
                             ELSE RecLoop(SetTop(S, t, [f EXCEPT !.iter = @ + 1, !.data = r[3], !.pc = "q1"]), t)
